@@ -39,6 +39,8 @@ Definition usem (f : ufn) (x : T) : T :=
   | Ureciprocal => none_ / x
   | Unegative => - x
   | Usqrt => rt P x
+  | Uabsolute => nabs x
+  | Usign => nsign x
   | _ => tr P f x
   end.
 Fixpoint npow (x : T) (n : nat) : T := match n with O => none_ | S k => x * npow x k end.
